@@ -272,13 +272,13 @@ def explore(ctx: Ctx):
     lims2 = [(0, 0), (2, 0), (0, 1), (0, 2), (0, 3)]
     cases = []
 
-    def emit(algo, fam, scripts, num_envs, num_steps, ks, gamma=0.5, lam=0.25):
+    def emit(algo, fam, scripts, num_envs, num_steps, ks, gamma=0.5, lam=0.25, **extra):
         n0 = len(cases)
         for tab in fam:
             for sc in scripts:
                 for k in ks:
                     cases.append(dict(tab, algo=algo, script=sc, num_envs=num_envs, num_steps=num_steps,
-                                      key=k, gamma=gamma, lam=lam))
+                                      key=k, gamma=gamma, lam=lam, **extra))
         return len(cases) - n0
 
     plan = {}
@@ -288,6 +288,10 @@ def explore(ctx: Ctx):
     plan["S2-discrete-A2C"] = emit("A2C", family(2, 2, shaped=False, limits=[(0, 2), (2, 0)]), scripts_full("discrete", 2, 3), 2, 3, keys[:1])
     plan["S2-discrete-REINFORCE"] = emit("REINFORCE", family(2, 2, shaped=False, limits=[(0, 2)]), scripts_full("discrete", 2, 3), 1, 3, keys[:1])
     plan["S2-masks-PPO"] = emit("PPO", family(2, 2, shaped=False, limits=[(0, 0), (0, 2)], masks=True), scripts_full("discrete", 2, 3), 1, 3, keys[:1])
+    # a policy whose VALUE depends on its own state (V(obs, c) = V[obs] + 3c): which policy state evaluates stored values, the
+    # truncation bootstrap and the final bootstrap becomes observable
+    plan["S2-discrete-PPO-stateful-value"] = emit("PPO", family(2, 2, shaped=False, limits=[(0, 0), (0, 2), (0, 3)]), scripts_full("discrete", 2, 4), 1, 4, keys[:1], VS=3.0)
+    plan["S2-discrete-A2C-E2-stateful-value"] = emit("A2C", family(2, 2, shaped=False, limits=[(0, 2)]), scripts_full("discrete", 2, 3), 2, 3, keys[:1], VS=3.0)
     # bounded Box actions: scripts over {lo-1, lo, 0, hi, hi+1}
     plan["S2-box-PPO"] = emit("PPO", family(2, 2, shaped=False, limits=[(0, 0), (0, 2), (2, 0)], act_kind="box"), scripts_full("box", 2, 3), 1, 3, keys[:1])
     plan["S2-boxvec-PPO-E2"] = emit("PPO", family(2, 2, shaped=True, limits=[(0, 0), (0, 2)], act_kind="boxvec"), scripts_full("boxvec", 2, 3), 2, 3, keys[:1])
